@@ -147,7 +147,11 @@ theorem tryFromLoop_append (H : Http) (a b : List FieldLine) : ∀ h,
     obtain ⟨n, v⟩ := f
     simp only [List.cons_append, tryFromLoop]
     cases Field.parse H n v with
-    | ok fld => exact ih _
+    | ok fld =>
+      simp only
+      split
+      · unfold mapFull; split <;> rfl
+      · exact ih _
     | err e => rfl
     | panic => rfl
 
@@ -178,18 +182,154 @@ theorem parse_regular (H : Http) (f : FieldLine) (h : RegularOk f) :
   obtain ⟨he, hp⟩ := nameAccepted_facts h1
   simp [Field.parse, he, hp, h1, h2]
 
-theorem tryFromLoop_regular (H : Http) (R : List FieldLine) (hR : ∀ f ∈ R, RegularOk f) : ∀ h,
-    tryFromLoop H h R = .ok { h with fields := R.foldl addStep h.fields } := by
-  induction R with
-  | nil => intro h; rfl
+/-! ### the capacity of the map: the sender's `append`s and the receiver's -/
+
+theorem fillFrom_some (l : List FieldLine) : ∀ (m M : HeaderMap), fillFrom m l = some M →
+    M = l.foldl addStep m := by
+  induction l with
+  | nil => intro m M h; simp only [fillFrom, Option.some.injEq] at h; exact h.symm
   | cons f r ih =>
-    intro h
+    intro m M h
+    simp only [fillFrom, hmTryAppend] at h
+    split at h
+    · rename_i m' hm'
+      split at hm'
+      · cases hm'; exact ih _ _ h
+      · cases hm'
+    · cases h
+
+theorem holdable_mapOf {l : List FieldLine} (h : Holdable l) : fillFrom [] l = some (mapOf l) := by
+  unfold Holdable at h
+  cases e : fillFrom [] l with
+  | none => rw [e] at h; cases h
+  | some M => rw [fillFrom_some l [] M e]; rfl
+
+/-- a full map ends with a name that has a single value (it was the last `append`) -/
+def Tight (m : HeaderMap) : Prop :=
+  m.length = hmMaxEntries → ∃ m' k v, m = m' ++ [(k, [v])]
+
+theorem hmAppend_old (m : HeaderMap) (n v : Bytes) (h : n ∈ m.map (·.1)) :
+    (hmAppend m n v).length = m.length := by
+  have := congrArg List.length (hmAppend_keys m n v)
+  simp only [List.length_map, if_pos h] at this
+  exact this
+
+theorem fillFrom_tight (l : List FieldLine) : ∀ (m M : HeaderMap), Tight m → m.length ≤ hmMaxEntries →
+    fillFrom m l = some M → Tight M ∧ M.length ≤ hmMaxEntries := by
+  induction l with
+  | nil => intro m M ht hc h; simp only [fillFrom, Option.some.injEq] at h; subst h; exact ⟨ht, hc⟩
+  | cons f r ih =>
+    intro m M ht hc h
+    simp only [fillFrom, hmTryAppend] at h
+    split at h
+    · rename_i m' hm'
+      split at hm'
+      · rename_i hlt
+        cases hm'
+        refine ih _ _ ?_ ?_ h
+        · by_cases hin : f.1 ∈ m.map (·.1)
+          · intro hlen; rw [hmAppend_old m f.1 f.2 hin] at hlen; omega
+          · intro _; exact ⟨m, f.1, f.2, hmAppend_new m f.1 f.2 hin⟩
+        · have := hmAppend_length_le m f.1 f.2; omega
+      · cases hm'
+    · cases h
+
+theorem holdable_tight {l : List FieldLine} (h : Holdable l) :
+    Tight (mapOf l) ∧ (mapOf l).length ≤ hmMaxEntries :=
+  fillFrom_tight l [] _ (by intro h0; simp [hmMaxEntries] at h0) (by simp) (holdable_mapOf h)
+
+/-- further values of the last name -/
+theorem fillFrom_group (acc : HeaderMap) (k : Bytes) (hk : k ∉ acc.map (·.1)) (vs : List Bytes) :
+    ∀ vs0, (vs = [] ∨ acc.length + 1 < hmMaxEntries) →
+    ∀ R, fillFrom (acc ++ [(k, vs0)]) (vs.map (fun v => (k, v)) ++ R) =
+      fillFrom (acc ++ [(k, vs0 ++ vs)]) R := by
+  induction vs with
+  | nil => intro vs0 _ R; simp
+  | cons v r ih =>
+    intro vs0 hc R
+    have hlt : acc.length + 1 < hmMaxEntries := by
+      rcases hc with hc | hc
+      · cases hc
+      · exact hc
+    simp only [List.map_cons, List.cons_append, fillFrom, hmTryAppend]
+    rw [if_pos (by simp; omega), hmAppend_last acc k vs0 v hk]
+    simp only
+    rw [ih (vs0 ++ [v]) (Or.inr hlt) R]
+    simp
+
+/-- re-inserting the entries of a map that is not over-full, in iteration order, never finds the
+    map full (and rebuilds the map) -/
+theorem fillFrom_hmIter (M : HeaderMap) : ∀ acc, HMOk M → (∀ g ∈ M, g.1 ∉ acc.map (·.1)) →
+    (acc ++ M).length ≤ hmMaxEntries → Tight (acc ++ M) →
+    fillFrom acc (hmIter M) = some (acc ++ M) := by
+  induction M with
+  | nil => intro acc _ _ _ _; simp [hmIter, fillFrom]
+  | cons g r ih =>
+    obtain ⟨k, vs⟩ := g
+    intro acc hM hd hlen ht
+    have hk : k ∉ acc.map (·.1) := hd (k, vs) (by simp)
+    have hvs : vs ≠ [] := hM.2 (k, vs) (by simp)
+    have hnd := List.nodup_cons.mp hM.1
+    have hr : HMOk r := ⟨hnd.2, fun x hx => hM.2 x (by simp [hx])⟩
+    obtain ⟨v, vs', rfl⟩ := List.exists_cons_of_ne_nil hvs
+    simp only [List.length_append, List.length_cons] at hlen
+    simp only [hmIter, List.map_cons, List.cons_append, fillFrom, hmTryAppend]
+    rw [if_pos (by omega), hmAppend_new acc k v hk]
+    simp only
+    have hgrp : vs' = [] ∨ acc.length + 1 < hmMaxEntries := by
+      by_cases hv : vs' = []
+      · exact Or.inl hv
+      · right
+        cases r with
+        | cons g' r' => simp only [List.length_cons] at hlen; omega
+        | nil =>
+          -- the last name has more than one value: the map is not full
+          have hne : (acc ++ [(k, v :: vs')]).length ≠ hmMaxEntries := by
+            intro hfull
+            obtain ⟨m', k', v', he⟩ := ht hfull
+            have := congrArg List.getLast? he
+            simp only [List.getLast?_append, List.getLast?_singleton, Option.some_or,
+              Option.some.injEq, Prod.mk.injEq, List.cons.injEq] at this
+            exact hv this.2.2
+          simp only [List.length_append, List.length_cons, List.length_nil] at hne hlen
+          omega
+    rw [fillFrom_group acc k hk vs' [v] hgrp (hmIter r)]
+    have e : acc ++ (k, v :: vs') :: r = (acc ++ [(k, [v] ++ vs')]) ++ r := by simp
+    rw [e] at ht ⊢
+    refine ih (acc ++ [(k, [v] ++ vs')]) hr ?_ (by simp only [List.length_append, List.length_cons, List.length_nil]; omega) ht
+    intro x hx
+    simp only [List.map_append, List.map_cons, List.map_nil, List.mem_append, List.mem_singleton, not_or]
+    refine ⟨hd x (by simp [hx]), ?_⟩
+    intro e'
+    exact hnd.1 (List.mem_map.mpr ⟨x, hx, e'⟩)
+
+theorem fillFrom_hmIter_mapOf {l : List FieldLine} (h : Holdable l) :
+    fillFrom [] (hmIter (mapOf l)) = some (mapOf l) := by
+  obtain ⟨ht, hc⟩ := holdable_tight h
+  simpa using fillFrom_hmIter (mapOf l) [] (hmOk_mapOf l) (by simp) (by simpa using hc) (by simpa using ht)
+
+/-- the receiver's loop over regular fields is the capacity-aware fill -/
+theorem tryFromLoop_regular (H : Http) (R : List FieldLine) (hR : ∀ f ∈ R, RegularOk f) : ∀ (h : Header) M,
+    fillFrom h.fields R = some M → tryFromLoop H h R = .ok { h with fields := M } := by
+  induction R with
+  | nil => intro h M hf; simp only [fillFrom, Option.some.injEq] at hf; subst hf; rfl
+  | cons f r ih =>
+    intro h M hf
     obtain ⟨n, v⟩ := f
-    have := parse_regular H (n, v) (hR _ (by simp))
-    simp only at this
-    simp only [tryFromLoop, this, List.foldl_cons]
-    rw [ih (fun x hx => hR x (by simp [hx]))]
-    rfl
+    have hp := parse_regular H (n, v) (hR _ (by simp))
+    simp only at hp
+    simp only [fillFrom, hmTryAppend] at hf
+    split at hf
+    · rename_i m' hm'
+      split at hm'
+      · rename_i hlt
+        cases hm'
+        have hfull : h.full (.header n v) = false := by
+          simp only [Header.full, decide_eq_false_iff_not]; omega
+        simp only [tryFromLoop, hp, hfull, Bool.false_eq_true, if_false]
+        exact ih (fun x hx => hR x (by simp [hx])) (h.add (.header n v)) M hf
+      · cases hm'
+    · cases hf
 
 /-! the six pseudo-header fields -/
 
@@ -235,12 +375,15 @@ structure PseudoBack (H : Http) (p : Pseudo) : Prop where
   protocol : ∀ x, p.protocol = some x → parseProtocol x = some x
 
 theorem loop_optField (H : Http) (h : Header) (n : Bytes) (o : Option Bytes) (R : List FieldLine)
-    (f : Bytes → Field) (hp : ∀ v, o = some v → Field.parse H n v = .ok (f v)) :
+    (f : Bytes → Field) (hnh : ∀ (h' : Header) v, h'.full (f v) = false)
+    (hp : ∀ v, o = some v → Field.parse H n v = .ok (f v)) :
     tryFromLoop H h (optField n o ++ R) =
       tryFromLoop H (match o with | some v => h.add (f v) | none => h) R := by
   cases o with
   | none => rfl
-  | some v => simp [optField, tryFromLoop, hp v rfl]
+  | some v =>
+    simp only [optField, List.cons_append, List.nil_append, tryFromLoop, hp v rfl, hnh h v,
+      Bool.false_eq_true, if_false]
 
 /-- `try_from` over `pseudoList p ++ R`: the pseudo part of the result is `p` again (`len` = the
     number of pseudo fields present) -/
@@ -249,12 +392,14 @@ theorem tryFromLoop_pseudo (H : Http) (p : Pseudo) (hp : PseudoBack H p) (R : Li
       tryFromLoop H { pseudo := { p with len := (pseudoList p).length }, fields := [] } R := by
   obtain ⟨m, s, a, pa, st, pr, len⟩ := p
   simp only [pseudoList, List.append_assoc]
-  rw [loop_optField H _ nMethod m _ .method (fun v hv => parse_method H v (hp.method v hv)),
-    loop_optField H _ nScheme s _ .scheme (fun v hv => parse_scheme H v (hp.scheme v hv)),
-    loop_optField H _ nAuthority a _ .authority (fun v hv => parse_authority H v (hp.authority v hv)),
-    loop_optField H _ nPath pa _ .path (fun v hv => parse_path H v (hp.path v hv)),
-    loop_optField H _ nStatus (st.map statusDigits) _ (fun v => .status (statusVal v)) ?_,
-    loop_optField H _ nProtocol pr _ .protocol (fun v hv => parse_protocol H v (hp.protocol v hv))]
+  rw [loop_optField H _ nMethod m _ .method (fun _ _ => rfl) (fun v hv => parse_method H v (hp.method v hv)),
+    loop_optField H _ nScheme s _ .scheme (fun _ _ => rfl) (fun v hv => parse_scheme H v (hp.scheme v hv)),
+    loop_optField H _ nAuthority a _ .authority (fun _ _ => rfl)
+      (fun v hv => parse_authority H v (hp.authority v hv)),
+    loop_optField H _ nPath pa _ .path (fun _ _ => rfl) (fun v hv => parse_path H v (hp.path v hv)),
+    loop_optField H _ nStatus (st.map statusDigits) _ (fun v => .status (statusVal v)) (fun _ _ => rfl) ?_,
+    loop_optField H _ nProtocol pr _ .protocol (fun _ _ => rfl)
+      (fun v hv => parse_protocol H v (hp.protocol v hv))]
   · cases m <;> cases s <;> cases a <;> cases pa <;> cases st <;> cases pr <;>
       simp [Header.add, optField] <;>
       first
@@ -270,22 +415,14 @@ theorem tryFromLoop_pseudo (H : Http) (p : Pseudo) (hp : PseudoBack H p) (R : Li
       obtain ⟨h1, h2⟩ := hp.status x rfl
       rw [parse_status H x h1 h2, (status_digits x h1 h2).2]
 
-/-- at most 24576 fields: `HeaderMap::try_with_capacity(fields.len())` succeeds -/
-theorem capacity_ok (n : Nat) (h : n ≤ 24576) : capacityOverflow n = false := by
-  simp only [capacityOverflow, decide_eq_false_iff_not]; omega
-
 /-- **`Header::try_from` on the wire fields of a `Header`** whose pseudo values parse back and
-    whose map was filled by `append` with acceptable names and values: the same `Header` (`len`
-    recomputed) -/
+    whose map the sender filled by `append` — and could hold (`Holdable`) — with acceptable names
+    and values: the same `Header` (`len` recomputed).  The number of fields plays no role. -/
 theorem tryFrom_wireFields (H : Http) (p : Pseudo) (l : List FieldLine) (hp : PseudoBack H p)
-    (hl : ∀ f ∈ l, RegularOk f)
-    (hcap : ({ pseudo := p, fields := mapOf l } : Header).wireFields.length ≤ 24576) :
+    (hl : ∀ f ∈ l, RegularOk f) (hhold : Holdable l) :
     tryFrom H ({ pseudo := p, fields := mapOf l } : Header).wireFields =
       .ok { pseudo := { p with len := (pseudoList p).length }, fields := mapOf l } := by
-  unfold tryFrom
-  rw [capacity_ok _ hcap]
-  simp only [Bool.false_eq_true, if_false]
-  rw [wireFields_eq, tryFromLoop_pseudo H p hp]
+  rw [tryFrom_eq_loop, wireFields_eq, tryFromLoop_pseudo H p hp]
   have hreg : ∀ f ∈ hmIter (mapOf l), RegularOk f := by
     intro f hf
     -- every entry the map iterates is one of the submitted fields
@@ -293,8 +430,7 @@ theorem tryFrom_wireFields (H : Http) (p : Pseudo) (l : List FieldLine) (hp : Ps
       simp [List.mem_filter, hf]
     rw [hmIter_mapOf_filter] at hmem
     exact hl f (List.mem_filter.mp hmem).1
-  rw [tryFromLoop_regular H _ hreg]
-  simp only [foldl_hmIter_mapOf]
+  rw [tryFromLoop_regular H _ hreg _ (mapOf l) (fillFrom_hmIter_mapOf hhold)]
 
 /-! ### requests, responses, trailers: what reaches the receiving application -/
 
@@ -317,7 +453,7 @@ structure RequestOk (H : Http) (method : Bytes) (uri : UriParts) (ext : Option B
 theorem recvRequest_sent (H : Http) (method : Bytes) (uri : UriParts) (ext : Option Bytes)
     (l : List FieldLine) (u : Uri) (h : Header)
     (hreq : Header.request method uri (mapOf l) ext = .ok h)
-    (hok : RequestOk H method uri ext l u) (hcap : h.wireFields.length ≤ 24576) :
+    (hok : RequestOk H method uri ext l u) (hcap : Holdable l) :
     recvRequest H h.wireFields =
       .ok { method := method, uri := u, protocol := (Pseudo.request method uri ext).protocol,
             headers := mapOf l } := by
@@ -360,8 +496,7 @@ theorem recvRequest_sent (H : Http) (method : Bytes) (uri : UriParts) (ext : Opt
   simp only [hauthority, hchoose, hmethod, hb]
 
 theorem recvResponse_sent (H : Http) (status : Nat) (l : List FieldLine) (h1 : 100 ≤ status)
-    (h2 : status ≤ 999) (hl : ∀ f ∈ l, RegularOk f)
-    (hcap : (Header.response status (mapOf l)).wireFields.length ≤ 24576) :
+    (h2 : status ≤ 999) (hl : ∀ f ∈ l, RegularOk f) (hcap : Holdable l) :
     recvResponse H (Header.response status (mapOf l)).wireFields = .ok (status, mapOf l) := by
   unfold recvResponse Header.response at *
   have hp : PseudoBack H { status := some status, len := 1 } :=
@@ -370,7 +505,7 @@ theorem recvResponse_sent (H : Http) (status : Nat) (l : List FieldLine) (h1 : 1
   rfl
 
 theorem recvTrailers_sent (H : Http) (l : List FieldLine) (hl : ∀ f ∈ l, RegularOk f)
-    (hcap : (Header.trailer (mapOf l)).wireFields.length ≤ 24576) :
+    (hcap : Holdable l) :
     recvTrailers H (Header.trailer (mapOf l)).wireFields = .ok (mapOf l) := by
   unfold recvTrailers Header.trailer at *
   have hp : PseudoBack H {} := ⟨by simp, by simp, by simp, by simp, by simp, by simp⟩
